@@ -177,7 +177,12 @@ func floatOf(n *jsonv.Node, bits int) (float64, bool) {
 func cmp08(J, D *jsonv.Node, in *gen.Intent, s *gen.Settings) error {
 	switch in.K {
 	case gen.INull:
-		if J.Kind != jsonv.Null || D.Kind != jsonv.Null {
+		if J.Kind == jsonv.Null && D.Kind == jsonv.Null {
+			return nil
+		}
+		// under a caller-supplied InterfaceMarshalFunc some nil values are rendered by that function (or by its error
+		// text): whatever it is, both builds must show the same
+		if s.IfaceMarshal == 0 || !bytes.Equal(J.Raw, D.Raw) {
 			return fmt.Errorf("nil: json %s, decoded binary %s", clipJ(J.Raw), clipJ(D.Raw))
 		}
 	case gen.IBool:
